@@ -61,6 +61,13 @@ func RunC02(c *core.Ctx) {
 				}
 			}
 		}
+		// the token store fails to invalidate the session of a refused ProveDevice (or the attacker's 66 races it): the
+		// keys the attacker derived from his own parameter must not have become the session's keys
+		for _, f := range []string{"signer", "sig-flip", "other-device", "alg-512", "sig-short", "nonce", "ueid", "null-payload"} {
+			h := seqSteps([]int{60, 62, 64, 66, 68, 70}, 0)
+			h[2].Fault = f
+			doHist(c, cf, h, "refused-proof-survives-invalidation-fault", core.Params{"invfail": "2", "keepkeys": "1"})
+		}
 		// a genuine proof recorded in session 1 replayed in session 0, then the attacker goes on in session 0
 		h := append(seqSteps([]int{60, 62}, 0), seqSteps([]int{60, 62, 64}, 1)...)
 		h = append(h, hstep{Msg: 64, Sess: 0, Tok: 's', From: 1}, hstep{Msg: 66, Sess: 0, Tok: 's', From: 1}, hstep{Msg: 66, Sess: 0, Tok: 's', From: -1})
@@ -423,4 +430,87 @@ func registerRedirectKind(c *core.Ctx) {
 
 func rawSignOpts(key crypto.Signer, pss bool) crypto.SignerOpts {
 	return raw.SignOpts(key, pss)
+}
+
+// runC05Protocol: the tunnel at protocol level. Every fault of the encryption of 66/68/70 (plaintext, keys of the
+// attacker's choosing, one flipped ciphertext bit, well-encrypted garbage) ends the session: the honest continuation
+// on the same token is refused. The server's own encrypted replies never reuse an IV and are COSE wrappers.
+func runC05Protocol(c *core.Ctx) {
+	registerServerKinds(c)
+	defer closeSrvEnvs()
+	cfgs := []srvCfg{
+		{env.P256, kex.ECDH256Suite, kex.A128GcmCipher, false},
+		{env.RSA2048, kex.DHKEXid14Suite, kex.CoseAes128CtrCipher, false},
+		{env.RSA2048, kex.ASYMKEX2048Suite, kex.CoseAes128CbcCipher, true},
+	}
+	if !c.Quick() {
+		cfgs = append(cfgs, srvCfg{env.P384, kex.ECDH384Suite, kex.A256GcmCipher, false}, srvCfg{env.RSAPKCS, kex.DHKEXid15Suite, kex.CoseAes256CbcCipher, false},
+			srvCfg{env.P256, kex.ECDH256Suite, kex.A192GcmCipher, true}, srvCfg{env.RSAPSS2, kex.ASYMKEX2048Suite, kex.CoseAes256CtrCipher, false})
+	}
+	ivs := map[string]string{}
+	for _, cf := range cfgs {
+		if _, err := srvEnv(cf.spec); err != nil {
+			c.Note("env %s: %v", cf.spec.Name, err)
+			continue
+		}
+		msgs := honestSeq["TO2"]
+		run := func(h []hstep, meta string) {
+			_, hr := doHist(c, cf, h, meta, nil)
+			if hr == nil {
+				return
+			}
+			for i, so := range hr.Steps {
+				if so.Res.RespType < 65 || so.Res.RespType > 71 {
+					continue
+				}
+				iv, wrapped := wireIV(so.Res.Body)
+				if !wrapped {
+					c.Fail(fmt.Sprintf("tunnel-reply-not-wrapped:%d", so.Res.RespType), fmt.Sprintf("reply %d of step %d is not a COSE_Encrypt0 / COSE_Mac0 object", so.Res.RespType, i), "srv.history", cf.params(h), core.Obs{})
+					continue
+				}
+				c.Rep.Evaluations++
+				key := hex.EncodeToString(iv)
+				if prev, dup := ivs[key]; dup {
+					c.Fail("iv-reused", fmt.Sprintf("IV %s of reply %d (%s) was used before in %s", key, so.Res.RespType, meta, prev), "srv.history", cf.params(h), core.Obs{})
+				}
+				ivs[key] = fmt.Sprintf("%s reply %d", cf.spec.Name, so.Res.RespType)
+			}
+		}
+		run(seqSteps(msgs, 0), "honest:TO2")
+		for i := 3; i < len(msgs); i++ {
+			for _, f := range []string{"plaintext", "wrong-keys", "bitflip", "enc-garbage", "enc-truncated", "garbage", "empty"} {
+				h := append(seqSteps(msgs[:i+1], 0), seqSteps(msgs[i:], 0)...) // the faulty message, then the honest one and the rest
+				h[i].Fault = f
+				run(h, "tunnel-fault-then-honest-retry")
+			}
+		}
+		// another session's ciphertext
+		h := append(seqSteps(msgs[:3], 0), seqSteps(msgs[:4], 1)...)
+		h = append(h, hstep{Msg: 66, Sess: 0, Tok: 's', From: 1}, hstep{Msg: 66, Sess: 0, Tok: 's', From: -1})
+		run(h, "ciphertext-of-other-session")
+	}
+	c.Count("distinct_reply_ivs", fmt.Sprint(len(ivs) > 0))
+}
+
+// wireIV extracts the IV (unprotected header 5) of a COSE_Encrypt0, possibly wrapped in a COSE_Mac0.
+func wireIV(body []byte) (iv []byte, wrapped bool) {
+	var e0 cose.Encrypt0Tag[[]byte, []byte]
+	if err := cbor.Unmarshal(body, &e0); err == nil {
+		ok, _ := e0.Unprotected.Parse(cose.Label{Int64: 5}, &iv)
+		return iv, ok
+	}
+	var m0 cose.Mac0Tag[cbor.RawBytes, []byte]
+	if err := cbor.Unmarshal(body, &m0); err == nil && m0.Payload != nil {
+		var inner cose.Encrypt0[[]byte, []byte]
+		if err := cbor.Unmarshal([]byte(m0.Payload.Val), &inner); err == nil {
+			ok, _ := inner.Unprotected.Parse(cose.Label{Int64: 5}, &iv)
+			return iv, ok
+		}
+		var innerT cose.Encrypt0Tag[[]byte, []byte]
+		if err := cbor.Unmarshal([]byte(m0.Payload.Val), &innerT); err == nil {
+			ok, _ := innerT.Unprotected.Parse(cose.Label{Int64: 5}, &iv)
+			return iv, ok
+		}
+	}
+	return nil, false
 }
